@@ -8,17 +8,20 @@ BRK = (' A broken theorem, translator or correspondence triggers a failing-input
 def register(claim, not_yet):
     claim('C01',
           'Lean theorems for every signal length, filter length and commutative ring: the model of afb1d (pad-size arithmetic, index vectors, stride-2 correlation with the reversed buffer, and for '
-          'periodization roll + zero-padded correlation + single fold) equals the PyWavelets formula in modes zero, symmetric, periodic, and in periodization for even N >= L (partial: the proof forces '
-          'L <= N, which is the known finding C01-periodization-short, witnessed by decide); one level of the 2-D transform on a channel equals pywt.dwt2 with bands (cH,cV,cD)=(LH,HL,HH). '
-          'Reflect mode, odd-N periodization, the J-level induction and the C-channel lifting are decided by the exact correspondence (afb1d, AFB1D, AFB2D, DWT1DForward, DWTForward) and by the '
+          'periodization roll + zero-padded correlation + single fold) equals the PyWavelets formula in modes zero, symmetric, periodic, in reflect exactly when torch accepts the pad (and raises otherwise), '
+          'and in periodization for every N (odd included) with L <= N + N%2 (partial: the proof forces that bound, whose complement is the known finding C01-periodization-short, witnessed by decide); '
+          'one level of the 2-D transform on a channel equals pywt.dwt2 with bands (cH,cV,cD)=(LH,HL,HH); the J-level modules equal wavedec / wavedec2 by induction on J; the C-channel grouped '
+          'convolution applies the one-channel operator to every channel. All of it is also run through the exact correspondence (afb1d, AFB1D, AFB2D, DWT1DForward, DWTForward) and the '
           'pywt oracle on integer and all named wavelets.' + TIE + BRK,
           'Lean 4 refinement theorems (impl-model = pywt spec) + exact model/code correspondence + pywt oracle search', 'DESIGN.md §4 C01')
     claim('C02',
-          'Proved: both directions refine the PyWavelets formulas (C01/C10 theorems), the un-pad length rule (result has N or N+1 samples) and perfect reconstruction for every two-tap '
-          'biorthogonal bank, every signal, mode zero. The general length-L PR statement is not yet a theorem (staged): it is decided by inverse(forward(x)) on the real modules for random '
-          'wavelets out of all 106, all modes, odd sizes, with PyWavelets own reconstruction error as yardstick (dmey clause).' + TIE + BRK,
-          'Lean 4 theorems (refinement both ways, two-tap PR, un-pad rule) + exact correspondence + round-trip oracle', 'DESIGN.md §4 C02',
-          'PR for general filter length is oracle-decided, not proved: partial.')
+          'Proved for every filter length L >= 2, every signal and every commutative ring: if the bank satisfies the finite polyphase biorthogonality conditions PRBank, then synthesis(analysis(x)) '
+          'returns every sample of x for ANY extension of the signal (pr_any_extension), hence in modes zero/symmetric/reflect/periodic (pr_padded) and for the models of afb1d/sfb1d themselves '
+          '(impl_pr_padded: never raises, returns x); the un-pad length rule (N or N+1 samples); both directions refine the PyWavelets formulas (C01/C10). PRBank is a hypothesis about the filter '
+          'values: it is measured on all 106 wavelets by the check (float residual, dmey reported), not proved per wavelet. Periodization PR, the 2-D/J-level lifting and the float tolerance are '
+          'decided by inverse(forward(x)) on the real modules for random wavelets out of all 106, all modes, odd sizes, with PyWavelets own reconstruction error as yardstick (dmey clause).' + TIE + BRK,
+          'Lean 4 theorems (general perfect reconstruction from PRBank for every extension, refinement both ways, un-pad rule) + exact correspondence + round-trip oracle', 'DESIGN.md §4 C02',
+          'periodization PR and PRBank of the shipped float tables are measured, not proved: partial.')
     claim('C03',
           'Proved: the level-1 filter colfilter(X, prep_filt(h)) equals the reference convolution with h on the half-sample symmetric extension for every filter and column length; the stack/view '
           'interleaving puts tree a / tree b on even / odd rows; coldfilt raises exactly when the length is not a positive multiple of 4. The quarter-shift filters, q2c orientation order and the '
@@ -48,19 +51,21 @@ def register(claim, not_yet):
           'Lean 4 linearity + per-channel theorems + exact correspondence with N,C>1 + linearity/slice oracle', 'DESIGN.md §4 C07')
     claim('C10',
           'Proved for arbitrary band contents, all band lengths and filter lengths: sfb1d in modes zero/symmetric/reflect/periodic (two transposed stride-2 convolutions cropped by L-2) equals '
-          'pywt.idwt. Periodization synthesis, the un-pad rule, None levels and the 2-D/J-level lifting are decided by the exact correspondence (sfb1d, SFB1D, SFB2D, sfb2d, DWT1DInverse, '
+          'pywt.idwt; periodization synthesis (one fold + roll) equals pywt.idwt whenever L-2 <= 2n (the complement is the known finding); the J-level DWT1DInverse (un-pad rule, None levels) equals '
+          'pywt.waverec by induction on the pyramid. The 2-D lifting is decided by the exact correspondence (sfb1d, SFB1D, SFB2D, sfb2d, DWT1DInverse, '
           'DWTInverse with None) and by the pywt.waverec/waverec2 oracle on arbitrary pyramids; short periodization is a known finding.' + TIE + BRK,
           'Lean 4 refinement theorem (synthesis = pywt idwt) + exact correspondence + pywt oracle on arbitrary pyramids', 'DESIGN.md §4 C10')
     claim('C11',
           'Proved: the four poly-phase branches of colifilt interleave as rows 4t..4t+3; colifilt raises exactly for odd/empty columns; with the band-pass absent inv_j2plus is the low-pass-only '
-          'synthesis; DTCWTInverse with nothing present raises. Equality with the reference inverse is decided by the exact Q(sqrt2) correspondence (colifilt/rowifilt, c2q, inv_j1, inv_j2plus, '
+          'synthesis; DTCWTInverse with nothing present raises; colifilt equals the reference poly-phase formula (dtcwt.numpy.lowlevel.colifilt written as an index formula, itself validated against the '
+          'package) in all parity/tree-order cases. Equality of the whole inverse pyramid with the reference is decided by the exact Q(sqrt2) correspondence (colifilt/rowifilt, c2q, inv_j1, inv_j2plus, '
           'DTCWTInverse with absent inputs in three spellings) and by the dtcwt oracle on arbitrary pyramids; absent == zeros is checked for subsets of levels (one known finding: absent level '
           'below an extended level).' + TIE + BRK,
           'Lean 4 structural theorems + exact Q(sqrt2) correspondence + numpy dtcwt inverse oracle + absent==zeros oracle', 'DESIGN.md §4 C11', 'reference equality is correspondence/oracle-decided: partial.')
     claim('C12',
           'get_dimensions5/6 are TRANSLATED from the source on every run and proved correct for ALL integer (o_dim, ri_dim) with distinct residues (negative aliases included): orientation and '
-          'real/imaginary axes sit where requested and h_dim/w_dim are the image rows/columns; every layout is a permutation of the canonical axes. Skip/include masks and prefix consistency '
-          'follow the level loop and are decided by the exact correspondence of both modules over all layouts and masks and by the oracle (30 layouts + aliases, all masks J<=3, prefixes).' + TIE + BRK,
+          'real/imaginary axes sit where requested and h_dim/w_dim are the image rows/columns; every layout is a permutation of the canonical axes; by induction over the level loop a skipped level '
+          'yields the empty placeholder and leaves the low-pass chain and all other levels unchanged, include_scale only adds outputs, and J levels are a prefix of J+1 levels. Also checked by the exact correspondence of both modules over all layouts and masks and by the oracle (30 layouts + aliases, all masks J<=3, prefixes).' + TIE + BRK,
           'Lean 4 theorems over source-translated axis functions (interval_cases + decide) + exact correspondence + layout/mask/prefix oracle', 'DESIGN.md §4 C12')
     claim('C13',
           'Proved for every even filter length, dilation and signal length: afb1d_atrous in periodic mode equals the pywt swt formula (circular correlation with the dilated filter), and that '
